@@ -163,6 +163,10 @@ int FsDropInService::prepDropInWatcherEventLoop(const std::string& dir) {
       IN_DELETE_SELF;
   if ((inotifywd_ = ::inotify_add_watch(inotifyfd_, dir.c_str(), mask)) < 0) {
     OLOG << "inotify_add_watch: " << Util::strerror_r();
+    // Registration is retried every tick: do not leak an inotify instance per
+    // failed attempt
+    ::close(inotifyfd_);
+    inotifyfd_ = -1;
     return 1;
   }
 
@@ -173,6 +177,9 @@ int FsDropInService::prepDropInWatcherEventLoop(const std::string& dir) {
   ev.data.fd = inotifyfd_;
   if (::epoll_ctl(epollfd_, EPOLL_CTL_ADD, inotifyfd_, &ev) < 0) {
     OLOG << "epoll_ctl: " << Util::strerror_r();
+    ::close(inotifyfd_);
+    inotifyfd_ = -1;
+    inotifywd_ = -1;
     return 1;
   }
 
